@@ -389,7 +389,7 @@ RPC_BODIES = (
     "md_missing", "md_mismatch", "no_version", "bad_version", "bad_params", "extra_param", "null_param", "no_batch",
 )
 RPC_CTS = ("ok", "ok", "wrong", "missing", "param")
-RPC_CENCS = ("none", "none", "zstd", "gzip", "identity", "br", "zstd_corrupt", "gzip_corrupt", "upper")
+RPC_CENCS = ("none", "none", "zstd", "gzip", "identity", "br", "zstd_corrupt", "gzip_corrupt", "zstd_huge", "upper")
 RPC_TOKENS = ("valid", "valid", "tampered", "missing", "garbage", "swapped")
 RPC_ACCEPTS = ("none", "zstd", "gzip", "x-zstd", "x-gzip", "identity", "br", "gzip,zstd")
 
@@ -417,7 +417,7 @@ def rpc_probe_strategy() -> Any:
         body = draw(st.sampled_from(RPC_BODIES[1:])) if "body" in bad else "valid"
         ct = draw(st.sampled_from(["wrong", "missing", "param"])) if "ct" in bad else "ok"
         cenc = (
-            draw(st.sampled_from(["identity", "br", "zstd_corrupt", "gzip_corrupt"]))
+            draw(st.sampled_from(["identity", "br", "zstd_corrupt", "gzip_corrupt", "zstd_huge"]))
             if "cenc" in bad
             else draw(st.sampled_from(["none", "none", "zstd", "gzip", "upper"]))
         )
@@ -622,6 +622,11 @@ def build_rpc_request(
     elif cenc == "gzip_corrupt":
         body = b"\x1f\x8b\x08\x00" + _mutate(plain, "garbage", mut)
         headers["Content-Encoding"] = "gzip"
+    elif cenc == "zstd_huge":
+        # well-formed zstd frame header (single segment, 8-byte Frame_Content_Size) declaring 2^40..2^62 bytes
+        size = 1 << (40 + mut % 23)
+        body = b"\x28\xb5\x2f\xfd\xe0" + size.to_bytes(8, "little") + _mutate(plain, "garbage", mut)[:64]
+        headers["Content-Encoding"] = "zstd"
     facts["wire_len"] = len(body)
 
     ct = probe["ct"]
